@@ -12,7 +12,7 @@ m = {
     "setup_cmd": "cd /verif && ./setup.sh",
     "hooks": {
         "guard": "verif",
-        "enable": "go build -tags verif (harness module: replace github.com/atlassian/escalator => /repo); hook files pkg/controller/verif_hooks.go, pkg/cloudprovider/aws/verif_hooks.go",
+        "enable": "go build -tags verif (harness module: replace github.com/atlassian/escalator => /repo); hook files pkg/controller/verif_hooks.go, pkg/cloudprovider/aws/verif_hooks.go, cmd/verif_hooks.go (go build -tags verif ./cmd; active only with ESCALATOR_VERIF_ASSEMBLE set)",
         "baseline_off_cmd": "cd /repo && GOFLAGS=-mod=mod GOPROXY=off GOSUMDB=off go test -vet=off -count=1 ./...",
         "source_commits": hooks_commit,
         "add_only": True,
